@@ -78,7 +78,7 @@ func (p *Prog) rawReadObligations() []Ob {
 // keyHashObligation (K6): KeyHash is FNV-1a/64 of the key bytes on every path (nil and empty keys
 // are the same key).
 func (p *Prog) keyHashObligation() Ob {
-	ob := Ob{Rule: "R8", Inst: "K6:index.KeyHash", Props: []string{"C09", "C13"}, Pos: "-", Nontrivial: true}
+	ob := Ob{Rule: "R8", Inst: "K6:index.KeyHash", Props: []string{"C09", "C13", "C11"}, Pos: "-", Nontrivial: true}
 	fn := p.pkgFunc(pkgIndex, "KeyHash")
 	if fn == nil || len(fn.Params) != 1 {
 		ob.Status, ob.Msg = Undecided, "index.KeyHash(key) not found"
